@@ -1,7 +1,7 @@
 (* The tensor-product cubic of the 2-D / 3-D model satisfies every row of the constraint system that
    Caching2D / Caching3D build (Model/C14_System.v), and it is the polynomial the model evaluates. *)
 Require Import Cherab.Common.Qx.
-Require Import Cherab.Model.C14_Caching Cherab.Model.C14_System Cherab.Proofs.C14_Hermite.
+Require Import Cherab.Model.C14_Caching Cherab.Model.C14_System Cherab.Proofs.C14_Hermite Cherab.Proofs.C14_Dim1.
 From Coq Require Import Lqa.
 Open Scope Q_scope.
 
@@ -287,4 +287,64 @@ Proof.
   assert (R : eq4 (fun k => C i j k) (fun k => C' i j k)).
   { apply (inj_1d zn _ _ Hz). intros dz kz. exact (eq4_in _ _ j (B2 dz kz) Hj). }
   exact (eq4_in _ _ k R Hk).
+Qed.
+
+(* ---- the de-normalisation loops (Model/C14_System.v: denorm2 / denorm3) followed by the return expression evaluate
+   data_delta * P(normalised point) + data_min, P the polynomial with the normalised coefficients ---- *)
+Lemma denorm_eval_2d ddelta dmin xdi ydi xmin ymin c px py :
+  eval2 (denorm2 ddelta dmin xdi ydi xmin ymin c) px py
+  == ddelta * dotv (compv false ((px - xmin) * xdi)) (fun a => dotv (compv false ((py - ymin) * ydi)) (fun b => c a b)) + dmin.
+Proof.
+  cbv beta iota zeta delta [eval2 line4 denorm2 polyder2 dotv dera compv factq powq Z.eqb andb]. field.
+Qed.
+Lemma denorm_eval_3d ddelta dmin xdi ydi zdi xmin ymin zmin c px py pz :
+  eval3 (denorm3 ddelta dmin xdi ydi zdi xmin ymin zmin c) px py pz
+  == ddelta * dotv (compv false ((px - xmin) * xdi)) (fun a => dotv (compv false ((py - ymin) * ydi)) (fun b =>
+       dotv (compv false ((pz - zmin) * zdi)) (fun e => c a b e))) + dmin.
+Proof.
+  cbv beta iota zeta delta [eval3 plane16 line4 denorm3 polyder3 dotv dera compv factq powq Z.eqb andb]. field.
+Qed.
+
+(* ---- the code's stored, de-normalised coefficients evaluated by the code's return expression ARE the model's
+   evalc2 / evalc3 ---- *)
+Lemma dotv_compv_ext t t' g : t == t' -> dotv (compv false t) g == dotv (compv false t') g.
+Proof. intros E. unfold dotv, compv. rewrite E. reflexivity. Qed.
+
+Lemma nodes4_ok x top i : increasing x top -> (1 <= i <= top - 2)%Z -> nd_ok (nodes4 (fun u => nrm x top (x u)) i).
+Proof.
+  intros Hinc Hi. destruct (C14_Dim1.nodes_distinct x top Hinc i Hi) as (N0 & _ & _ & Nt).
+  unfold nodes4, nd_ok. rewrite !C14_Dim1.nrm_eq. apply C14_Dim1.scaled_diff_nz; [exact N0|].
+  apply C14_Dim1.inv_nz; exact Nt.
+Qed.
+
+Theorem code_evaluation_2d x y topx topy fb i j vals px py :
+  increasing x topx -> increasing y topy -> (1 <= i <= topx - 2)%Z -> (1 <= j <= topy - 2)%Z -> length vals = 16%nat ->
+  evalc2 x y topx topy fb ((i, j), vals) (px, py)
+  == eval2 (denorm2 (data_delta fb) (data_min fb) (x_delta_inv x topx) (x_delta_inv y topy) (x 0%Z) (y 0%Z)
+              (coef2 (nodes4 (fun u => nrm x topx (x u)) i) (nodes4 (fun v => nrm y topy (y v)) j) (block2 vals))) px py.
+Proof.
+  intros Hx Hy Hi Hj L. unfold evalc2. cbn [fst snd].
+  rewrite (block_value_2d _ _ vals _ _ L (nodes4_ok x topx i Hx Hi) (nodes4_ok y topy j Hy Hj)).
+  rewrite dotl_row2. rewrite denorm_eval_2d.
+  apply Qplus_comp; [|reflexivity]. apply Qmult_comp; [reflexivity|].
+  rewrite (dotv_compv_ext _ _ _ (C14_Dim1.nrm_eq x topx px)). apply dotv_ext. intro a.
+  apply (dotv_compv_ext _ _ _ (C14_Dim1.nrm_eq y topy py)).
+Qed.
+
+Theorem code_evaluation_3d x y z topx topy topz fb i j k vals px py pz :
+  increasing x topx -> increasing y topy -> increasing z topz ->
+  (1 <= i <= topx - 2)%Z -> (1 <= j <= topy - 2)%Z -> (1 <= k <= topz - 2)%Z -> length vals = 64%nat ->
+  evalc3 x y z topx topy topz fb ((i, j, k), vals) (px, py, pz)
+  == eval3 (denorm3 (data_delta fb) (data_min fb) (x_delta_inv x topx) (x_delta_inv y topy) (x_delta_inv z topz)
+              (x 0%Z) (y 0%Z) (z 0%Z)
+              (coef3 (nodes4 (fun u => nrm x topx (x u)) i) (nodes4 (fun v => nrm y topy (y v)) j)
+                     (nodes4 (fun w => nrm z topz (z w)) k) (block3 vals))) px py pz.
+Proof.
+  intros Hx Hy Hz Hi Hj Hk L. unfold evalc3.
+  rewrite (block_value_3d _ _ _ vals _ _ _ L (nodes4_ok x topx i Hx Hi) (nodes4_ok y topy j Hy Hj) (nodes4_ok z topz k Hz Hk)).
+  rewrite dotl_row3. rewrite denorm_eval_3d.
+  apply Qplus_comp; [|reflexivity]. apply Qmult_comp; [reflexivity|].
+  rewrite (dotv_compv_ext _ _ _ (C14_Dim1.nrm_eq x topx px)). apply dotv_ext. intro a.
+  rewrite (dotv_compv_ext _ _ _ (C14_Dim1.nrm_eq y topy py)). apply dotv_ext. intro b.
+  apply (dotv_compv_ext _ _ _ (C14_Dim1.nrm_eq z topz pz)).
 Qed.
